@@ -54,6 +54,10 @@ func H_C06_consts() {
 	A(CRef == 42, "reference to a constant")
 	A(CIncRef == 77, "reference to an included constant")
 	A(CIncStr == "from-inc", "included string constant")
+	A(CInc2Ref == 1000 && CInt == 42, "constant of an included file whose Go package has the same last path segment and the same constant name")
+	A(CInc2Str == "from-inc2", "string constant of the same-named package")
+	A(int64(CInc2Enum) == 7, "enum member of the same-named package")
+	A(zzListEq(CInc2List, 1000, 42), "list mixing an included and a local constant of the same name")
 	A(CIncEnum == inc.Level_Low && int64(CIncEnum) == 1, "included enum member")
 	A(CIncEnumRef == inc.Level_High, "included enum constant")
 	A(zzListEq(CList, 1, 2, 3), "list constant")
@@ -97,6 +101,7 @@ func zzCheckDefaults(p *Defs, what string) {
 	A(p.Ilv == inc.Level_High, "ilv (included enum)")
 	A(p.Dref == 77, "dref (included constant)")
 	A(p.Oid == 99, "oid (typedef)")
+	A(p.D2 == 1000, "d2 (constant of the same-named included package)")
 }
 
 // H_C06_new: NewX and InitDefault give every field its declared default and all others zero.
